@@ -143,7 +143,26 @@ def run(res, proof):
     w = World()
     nvals = 40 if res.tier == 'quick' else 600
     vals = values(rng, nvals)
-    allu = CONC + TIME + ['m', 'h', 'foo', '', 'S', 'mm']
+    # the units the PIL grammar admits are read from the working tree's grammar by the translator (not assumed here)
+    gu = (proof.gen_report.get('files', {}).get('GrammarUnits', {}) or {}).get('summary') or {}
+    GTIME = list(gu.get('tunit') or globals()['GTIME'])
+    GCONC = list(gu.get('cunit') or globals()['GCONC'])
+    res.dist['grammar_units_from_source'] = ' '.join(GCONC) + ' | ' + ' '.join(GTIME)
+    # every unit the grammar admits must be convertible (to the base unit of its family and back)
+    for fam_units, base in ((GTIME, 's'), (GCONC, 'M')):
+        for u in fam_units:
+            res.evaluations += 1
+            try:
+                x = utils.convert_units(1, u, base)
+                y = utils.convert_units(x, base, u)
+                ok, obs = (x > 0 and close(y, Fraction(1))), '%r -> %r -> %r' % (u, x, y)
+            except Exception as e:
+                ok, obs = False, 'err ' + type(e).__name__
+                e = None
+            if not ok:
+                res.violation('grammar-unit-not-convertible:' + u, {'op': ['units.conv', 1, u, base]}, obs,
+                              'a positive number: every rate unit accepted by the PIL grammar can be converted')
+    allu = CONC + TIME + ['m', 'h', 'foo', '', 'S', 'mm'] + [u for u in GTIME + GCONC if u not in CONC + TIME + ['m', 'h']]
     ops = []
     for a in allu:
         for b in allu:
@@ -273,6 +292,27 @@ def run(res, proof):
             if not ok:
                 res.violation('rate_constant:' + form, {'op': ['rate_set', form, repr(arg)]}, obs, repr(exp))
                 continue
+            # a refused assignment changes nothing: the constant is still returned as it was (successfully) set
+            for bad in ((7, '/nM', '/s'), (v, '/M', '/s', None), ()):
+                refused = False
+                try:
+                    r.rate_constant = bad
+                except Exception as e:
+                    refused = True; e = None
+                if refused:
+                    res.count('refused_assignment')
+                    try:
+                        again = r.rate_constant
+                        same2 = (again[0] == exp[0] and again[1] == exp[1])
+                        obs2 = repr(again)
+                    except Exception as e:
+                        same2, obs2 = False, "err " + type(e).__name__
+                    if not same2:
+                        res.violation('rate_constant:changed-by-a-refused-assignment', {'op': ['rate_set', form, repr(arg), 'then refused', repr(bad)]},
+                                      obs2, repr(exp))
+                        break
+                else:
+                    r.rate_constant = arg
             # the printed form of the reaction shows the constant as it was set (six significant digits), its units, the type
             # and the members in the object's order
             import re
